@@ -27,6 +27,17 @@ static int sigalg_enabled(X509 *x, int sha2_only)
     case NID_ecdsa_with_SHA256: case NID_ecdsa_with_SHA384: case NID_ecdsa_with_SHA512:
     case NID_ED25519:
         return 1;
+# ifdef USE_PKCS1_PSS
+    case NID_rsassaPss:
+    {
+        int mdnid = NID_undef, pknid = NID_undef;
+        if (!X509_get_signature_info(x, &mdnid, &pknid, NULL, NULL))
+        {
+            return 0;
+        }
+        return mdnid == NID_sha256 || mdnid == NID_sha384 || mdnid == NID_sha512;
+    }
+# endif
     case NID_sha224WithRSAEncryption: case NID_ecdsa_with_SHA224:
 # ifdef USE_SHA224
         return 1;
@@ -218,7 +229,7 @@ static int keyid_conformant(int xi, int yi)
 }
 static int link_strict(int xi, int yi, int nbelow, const char **why)
 {
-    if (!edge_ok(xi, yi)) { *why = "signature does not verify under the issuer key"; return 0; }
+    if (!edge_ok(xi, yi)) { *why = "signature does not verify under the issuer key (or its algorithm / the key size is not enabled in this build)"; return 0; }
     if (!sigalg_enabled(U[xi].x, 1)) { *why = "not a SHA-2/Ed25519 signature"; return 0; }
     if (X509_NAME_cmp(X509_get_issuer_name(U[xi].x), X509_get_subject_name(U[yi].x))) { *why = "issuer DN != subject DN of issuer"; return 0; }
     if (!keyid_conformant(xi, yi)) { *why = "AKI/SKI not both present and equal (or both absent)"; return 0; }
